@@ -252,6 +252,23 @@ func main() {
 		run(caseLine{Cmds: [][]int{{3, 2 << 20, 2, 1 << 20}, {1, (1 << 20) + 7}, {0}}, Hb: []int{0, 1, 0}})
 		run(caseLine{Cmds: [][]int{{1, 3 << 20}, {1, 1 << 20}, {1, 2 << 20}}, Hb: []int{0, 0, 2}})
 	}
+	// directed: commands of many arguments (what a bulk loader's RPUSH / SADD / MSET / DEL looks like) - element counts on both
+	// sides of every digit boundary of the array header and of the powers of two an implementation may size buffers by
+	many := []int{9, 10, 99, 100, 255, 256, 999, 1000, 1023, 1024, 1025, 2048}
+	for i, n := range many {
+		if i%*shards != *shard {
+			continue
+		}
+		lens := make([]int, n) // n arguments + the name = n + 1 elements
+		for j := range lens {
+			lens[j] = (j * 7) % 4
+		}
+		lens1 := make([]int, n-1) // n elements in all
+		for j := range lens1 {
+			lens1[j] = 1 + j%2
+		}
+		run(caseLine{Cmds: [][]int{lens, {2, 3}, lens1}, Hb: []int{0, 1, 0}})
+	}
 	for i := 0; i < *nrand; i++ {
 		var c caseLine
 		for k := 1 + r.Intn(4); k > 0; k-- {
